@@ -86,6 +86,17 @@ def make_dataset(conv, shape, variant):
             from emsarray.conventions.arakawa_c import ArakawaC, ArakawaCGridKind as K
             names = {K.node: ('y_grid', 'x_grid'), K.back: ('y_back', 'x_back'), K.face: ('y_centre', 'x_centre'), K.left: ('y_left', 'x_left')}
             return ds, ArakawaC(ds, coordinate_names=names), builders.shoc_shapes(nj, ni)
+        if variant == 'after-custom-names':
+            # another SHOC dataset was opened earlier in this process with coordinate names given by the caller (left and
+            # back exchanged): the predefined names of the convention are what they were
+            from emsarray.conventions.arakawa_c import ArakawaCGridKind as K
+            other = builders.shoc_standard(nj + 1, ni + 2)
+            try:
+                oc = ShocStandard(other, coordinate_names={K.left: ('y_back', 'x_back'), K.back: ('y_left', 'x_left'),
+                                                           K.face: ('y_centre', 'x_centre'), K.node: ('y_grid', 'x_grid')})
+                oc.grid_shape
+            except Exception:
+                pass
         return ds, ShocStandard(ds), builders.shoc_shapes(nj, ni)
     if conv == 'ugrid':
         mesh, mode = shape, variant
@@ -273,6 +284,8 @@ def cases(tier):
         configs.append(('shoc_standard', shp, '-', ['face', 'left', 'back', 'node']))
         if shp[0] != shp[1]:
             configs.append(('shoc_standard', shp, 'named', ['face', 'left', 'back', 'node']))
+        if shp in ((2, 3), (3, 1)):
+            configs.append(('shoc_standard', shp, 'after-custom-names', ['left', 'back']))
     meshes = ['tq', 'tqp', 'fan', 'tri'] if tier == 'quick' else list(builders.MESHES)
     for mesh in meshes:
         configs.append(('ugrid', mesh, 'noedge', ['face', 'node']))
